@@ -697,6 +697,13 @@ static char c_dir_path (char **av) { int s = ai (av, 1), d = ai (av, 2); LIB ();
 static char c_dir_rewind (char **av) { int d = ai (av, 1); LIB (); NEED (d, T_DIR); p_dir_rewind (S[d].p, NULL); S[d].a = 0; return 'S'; }
 static char c_dirent_free (char **av) { int d = ai (av, 1); LIB (); NEED (d, T_DIRENT); p_dir_entry_free (S[d].p); clr (d); return 'S'; }
 static char c_dir_free (char **av) { int d = ai (av, 1); LIB (); NEED (d, T_DIR); p_dir_free (S[d].p); clr (d); return 'S'; }
+/* p_dir_create below a path that does not exist, p_dir_remove of a directory that does not exist: both only report an error */
+static char c_dir_create_missing (char **av) { int e = ai (av, 1); LIB (); ERRARG (e, -2);
+	char path[512]; snprintf (path, sizeof path, "%s/no-such-dir/sub", scratch);
+	pboolean ok = p_dir_create (path, 0755, e_in (e)); e_out (e); return ok ? 'X' : 'F'; }
+static char c_dir_remove_missing (char **av) { int e = ai (av, 1); LIB (); ERRARG (e, -2);
+	char path[512]; snprintf (path, sizeof path, "%s/no-such-dir", scratch);
+	pboolean ok = p_dir_remove (path, e_in (e)); e_out (e); return ok ? 'X' : 'F'; }
 static char c_file_remove_missing (char **av) { int e = ai (av, 1); LIB (); ERRARG (e, -2);
 	char path[512]; snprintf (path, sizeof path, "%s/no-such-file", scratch);
 	p_file_remove (path, e_in (e)); e_out (e); return 'F'; }
@@ -797,6 +804,20 @@ static char c_sock_udp_echo (char **av) { int s = ai (av, 1), d = ai (av, 2), e 
 	put (d, T_SADDR, from); return 'S'; }
 static char c_sock_close (char **av) { int d = ai (av, 1), e = ai (av, 2); LIB (); NEED (d, T_SOCK); ERRARG (e, d);
 	pboolean ok = p_socket_close (S[d].p, e_in (e)); e_out (e); if (!ok) return 'F'; S[d].b = 3; return 'S'; }
+/* every I/O entry point on a socket that was closed: each must refuse with "not available"; only the first finds the error pointer empty */
+static char c_sock_io_closed (char **av) { int d = ai (av, 1), w = ai (av, 2), e = ai (av, 3); LIB (); NEED (d, T_SOCK); ERRARG (e, d); if (S[d].b != 3 || w < 0 || w > 6) return '-';
+	char buf[8]; int refused = 0;
+	switch (w) {
+	case 0: refused = p_socket_send (S[d].p, "x", 1, e_in (e)) == -1; break;
+	case 1: refused = p_socket_receive (S[d].p, buf, sizeof buf, e_in (e)) == -1; break;
+	case 2: refused = p_socket_shutdown (S[d].p, TRUE, TRUE, e_in (e)) == FALSE; break;
+	case 3: refused = p_socket_set_buffer_size (S[d].p, P_SOCKET_DIRECTION_SND, 4096, e_in (e)) == FALSE; break;
+	case 4: refused = p_socket_listen (S[d].p, e_in (e)) == FALSE; break;
+	case 5: refused = p_socket_io_condition_wait (S[d].p, P_SOCKET_IO_CONDITION_POLLIN, e_in (e)) == FALSE; break;
+	default: refused = p_socket_accept (S[d].p, e_in (e)) == NULL; break;
+	}
+	e_out (e);
+	return refused ? 'F' : 'X'; }
 static char c_sock_free (char **av) { int d = ai (av, 1); LIB (); NEED (d, T_SOCK); p_socket_free (S[d].p); clr (d); return 'S'; }
 static char c_sock_from_fd (char **av) { int d = ai (av, 1), e = ai (av, 2); LIB (); EMPTY (d); ERRARG (e, d);
 	int raw = __real_socket (AF_INET, SOCK_STREAM, 0); if (raw < 0) return '-';
@@ -885,7 +906,9 @@ static char c_thread_run (char **av) { int d = ai (av, 1), joinable = ai (av, 2)
 	for (int i = 0; i < 4000 && (!__atomic_load_n (&th_done, __ATOMIC_SEQ_CST) || ntasks () > base); i++) usleep (500);
 	put (d, T_THREAD, t);
 	return 'S'; }
-static char c_thread_unref (char **av) { int d = ai (av, 1); LIB (); NEED (d, T_THREAD); p_uthread_unref (S[d].p); clr (d); return 'S'; }
+static char c_thread_unref (char **av) { int d = ai (av, 1); LIB (); NEED (d, T_THREAD);
+	if (d % 2) { p_uthread_ref (S[d].p); p_uthread_unref (S[d].p); }     /* an extra reference taken and dropped: the object goes with the last one only */
+	p_uthread_unref (S[d].p); clr (d); return 'S'; }
 /* TLS slot: a = the value this (main) thread stored, owned by the caller */
 static char c_tls_new (char **av) { int d = ai (av, 1); LIB (); EMPTY (d);
 	PUThreadKey *r = p_uthread_local_new ((PDestroyFunc) p_free); if (!r) return 'F'; put (d, T_TLS, r); return 'S'; }
@@ -1086,11 +1109,11 @@ static const struct { const char *name; char (*fn) (char **); const char *may; }
 	{ "hash_new", c_hash_new }, { "hash_update", c_hash_update }, { "hash_string", c_hash_string }, { "hash_reset", c_hash_reset }, { "hash_check", c_hash_check }, { "hash_free", c_hash_free },
 	{ "ipc_key", c_ipc_key }, { "ipc_tmpdir", c_ipc_tmpdir },
 	{ "dir_new", c_dir_new }, { "dir_next", c_dir_next }, { "dir_path", c_dir_path }, { "dir_rewind", c_dir_rewind }, { "dirent_free", c_dirent_free },
-	{ "dir_free", c_dir_free }, { "file_remove_missing", c_file_remove_missing },
+	{ "dir_free", c_dir_free }, { "file_remove_missing", c_file_remove_missing }, { "dir_create_missing", c_dir_create_missing }, { "dir_remove_missing", c_dir_remove_missing },
 	{ "sa_new", c_sa_new }, { "sa_any", c_sa_any }, { "sa_loop", c_sa_loop }, { "sa_native", c_sa_native }, { "sa_addr", c_sa_addr }, { "sa_free", c_sa_free },
 	{ "sock_new", c_sock_new }, { "sock_bad", c_sock_bad }, { "sock_listen", c_sock_listen, "1SF" }, { "sock_connect", c_sock_connect },
 	{ "sock_connect_refused", c_sock_connect_refused }, { "sock_connect_timeout", c_sock_connect_timeout }, { "sock_accept", c_sock_accept }, { "sock_local", c_sock_local }, { "sock_remote", c_sock_remote },
-	{ "sock_udp_echo", c_sock_udp_echo }, { "sock_close", c_sock_close, "1SF" }, { "sock_free", c_sock_free }, { "sock_from_fd", c_sock_from_fd },
+	{ "sock_udp_echo", c_sock_udp_echo }, { "sock_close", c_sock_close, "1SF" }, { "sock_free", c_sock_free }, { "sock_io_closed", c_sock_io_closed }, { "sock_from_fd", c_sock_from_fd },
 	{ "sem_new", c_sem_new, "!names" }, { "sem_cycle", c_sem_cycle }, { "sem_own", c_sem_own }, { "sem_free", c_sem_free, "!names" },
 	{ "shm_new", c_shm_new }, { "shm_own", c_shm_own }, { "shm_cycle", c_shm_cycle, "!shm" }, { "shm_free", c_shm_free, "!names" },
 	{ "shmbuf_new", c_shmbuf_new }, { "shmbuf_rw", c_shmbuf_rw, "!shm" }, { "shmbuf_own", c_shmbuf_own }, { "shmbuf_free", c_shmbuf_free, "!names" },
@@ -1206,6 +1229,9 @@ STD (sock_accept_timeout, "sock_new 0 0 9", "sock_listen 0 9", "sock_accept 0 1 
 STD (sock_udp, "sock_new 0 1 9", "sock_listen 0 9", "sock_udp_echo 0 1 9", "sa_free 1", "sock_free 0", "err_free 9")
 STD (sock_from_fd, "sock_from_fd 0 9", "sock_remote 0 1 9", "sa_free 1", "sock_free 0", "err_free 9")
 STD (sock_bad, "sock_bad 9", "err_free 9", "sock_bad x")
+STD (sock_io_closed, "sock_new 0 0 9", "sock_io_closed 0 0 9", "sock_close 0 9", "sock_io_closed 0 0 9", "sock_io_closed 0 1 9", "err_free 9", "sock_io_closed 0 2 9", "err_free 9",
+     "sock_io_closed 0 3 9", "err_free 9", "sock_io_closed 0 4 9", "err_free 9", "sock_io_closed 0 5 9", "err_free 9", "sock_io_closed 0 6 9", "err_free 9", "sock_io_closed 0 1 x", "sock_free 0")
+STD (dir_errors, "dir_create_missing 0", "dir_remove_missing 0", "err_free 0", "dir_remove_missing 0", "err_free 0", "dir_create_missing x")
 STD (sock_syscall_fail, "sysfail socket", "sock_new 0 0 9", "sock_free 0", "err_free 9")
 STD (sock_fcntl_fail, "sysfail fcntl", "sock_new 0 0 9", "sock_free 0", "sock_new 0 1 9", "sock_free 0", "err_free 9")
 STD (sock_fcntl_fail_fromfd, "sysfail fcntl", "sock_from_fd 0 9", "sock_free 0", "sock_from_fd 0 9", "sock_free 0", "err_free 9")
@@ -1239,6 +1265,7 @@ STD (thread_join, "thread_run 0 1 0 x", "thread_unref 0")
 STD (thread_detached, "thread_run 0 0 0 x", "thread_unref 0")
 STD (thread_tls_body, "tls_new 1", "thread_run 0 1 1 1", "thread_unref 0", "tls_free 1")
 STD (thread_two, "cur_thread", "thread_run 0 1 1 x", "thread_run 1 0 1 x", "thread_unref 1", "thread_unref 0")
+STD (thread_extra_ref, "thread_run 1 1 0 x", "thread_unref 1", "thread_run 3 0 0 x", "thread_unref 3")
 STD (thread_create_fail, "sysfail pthread_create", "thread_run 0 1 0 x", "thread_unref 0")
 STD (tls_main, "tls_new 0", "tls_set 0", "tls_get 0", "tls_set 0", "tls_replace 0", "tls_free 0")
 STD (tls_key_fail, "tls_new 0", "sysfail pthread_key_create", "tls_set 0", "tls_set 0", "tls_free 0")
@@ -1334,13 +1361,13 @@ static const struct { const char *name; void (*fn) (void); } SCENARIOS[] = {
 	E (ipc_key_posix), E (ipc_key_sysv), E (ipc_tmpdir),
 	E (dir_basic), E (dir_entries), E (dir_missing), E (file_missing),
 	E (sa_v4), E (sa_v6), E (sa_bad), E (sa_misc),
-	E (sock_basic), E (sock_tcp_pair), E (sock_refused), E (sock_connect_timeout), E (sock_accept_timeout), E (sock_udp), E (sock_from_fd), E (sock_bad), E (sock_syscall_fail),
+	E (sock_basic), E (sock_tcp_pair), E (sock_refused), E (sock_connect_timeout), E (sock_accept_timeout), E (sock_udp), E (sock_from_fd), E (sock_bad), E (sock_io_closed), E (dir_errors), E (sock_syscall_fail),
 	E (sock_fcntl_fail), E (sock_fcntl_fail_fromfd), E (sock_fcntl_fail_accept), E (sem_open_fail), E (sem_recreate), E (shm_lock_sem_open_fail),
 	E (sem_basic), E (sem_two), E (sem_own),
 	E (shm_basic), E (shm_two_equal), E (shm_two_smaller), E (shm_two_larger), E (shm_mmap_fail), E (shm_ftruncate_fail), E (shm_open_fail), E (shm_zero_size),
 	E (shmbuf_basic), E (shmbuf_two), E (shmbuf_two_diff), E (shmbuf_small),
 	E (locks_all), E (rwlock_general), E (mutex_init_fail), E (cond_init_fail),
-	E (thread_join), E (thread_detached), E (thread_tls_body), E (thread_two), E (thread_create_fail), E (tls_main), E (tls_key_fail), E (cur_thread),
+	E (thread_join), E (thread_detached), E (thread_tls_body), E (thread_two), E (thread_extra_ref), E (thread_create_fail), E (tls_main), E (tls_key_fail), E (cur_thread),
 	E (loader_basic), E (loader_missing), E (loader_dlopen_fail), E (mmap_basic), E (mmap_fail),
 	E (cross_ini_containers), E (cross_dir_hash), E (cross_ipc_socket), E (cross_error_chain), E (cross_everything),
 	E (long_containers), E (long_system), E (long_ipc_threads),
